@@ -191,7 +191,12 @@ func (c *FeeController) ComputeFeesToDistribute(
 				fees.Values,
 				actiontypes.RecipientAmount{Recipient: addr, Amount: sdk.NewCoins(fee)},
 			)
-			fees.Total = fees.Total.Add(feeAmount)
+			// NOTE: Add panics on overflow, the validated inputs can still
+			// sum up to more than the maximum supported integer.
+			fees.Total, err = fees.Total.SafeAdd(feeAmount)
+			if err != nil {
+				return nil, err
+			}
 		}
 	}
 
